@@ -145,16 +145,19 @@ class EventPart:
     """site_prefix distinguishes the property using this part (C01 looks at monitors, C05 at outcomes…)"""
 
     def __init__(self, name="evt", n_quick=3000, n_thorough=60000, max_size=12, max_size_thorough=25, std=None,
-                 extra_flags=(), monitors_only=False, report_crashes=True, extra_cases=None):
+                 extra_flags=(), monitors_only=False, report_crashes=True, extra_cases=None, src_file="evt.cpp",
+                 faults_quick=0, faults_thorough=0):
         self.name, self.n_quick, self.n_thorough = name, n_quick, n_thorough
         self.max_size, self.max_size_thorough, self.std, self.extra_flags = max_size, max_size_thorough, std, extra_flags
         self.monitors_only = monitors_only
         self.report_crashes = report_crashes
         self.extra_cases = extra_cases
+        self.src_file = src_file
+        self.faults_quick, self.faults_thorough = faults_quick, faults_thorough
 
     def run(self, tier, seed, verdict, cov, driver):
         t0 = time.time()
-        src = os.path.join(vlib.VERIF, "harness", "evt", "evt.cpp")
+        src = os.path.join(vlib.VERIF, "harness", "evt", self.src_file)
         try:
             exe = vlib.build_plain(src, ["inplace_stop_token.cpp"], self.extra_flags, self.std, sanitize="address,undefined", name="evt")
         except vlib.BuildError as e:
@@ -185,6 +188,14 @@ class EventPart:
                         dict(stream=self.name, case=lines[k], sanitizer_report=err), found_input=True)
         keep = [i for i, x in enumerate(impl) if x is not None]
         lines = [lines[i] for i in keep]; impl = [impl[i] for i in keep]
+        moves = []
+        for k, x in enumerate(impl):
+            if " # moves=" in x:
+                x, _, m = x.rpartition(" # moves=")
+                impl[k] = x
+                moves.append(int(m))
+            else:
+                moves.append(0)
         model = [driver.ask("ask calc run | " + l) for l in lines]
         distinct = set()
         hist = {}
@@ -195,7 +206,7 @@ class EventPart:
             for tok in l.split("|")[1].replace("(", " ").replace(")", " ").split():
                 if tok.isalpha():
                     hist[tok] = hist.get(tok, 0) + 1
-            if "!!root" in a or "!!completion" in a or "!!leak" in a:
+            if "!!root" in a or "!!completion" in a or "!!leak" in a or "!!tvleak" in a:
                 verdict.add(f"{self.name}: monitor {a.split('!!')[1].split(',')[0].split(' ')[0]}", f"implementation monitor fired: {a}",
                             dict(stream=self.name, case=l, impl=a, model=b), found_input=True)
             if a != b:
@@ -209,6 +220,31 @@ class EventPart:
                                 dict(stream=self.name, case=l, impl=a, model=b, broken="correspondence evt vs Calc.deliver"), found_input=(ra != rb))
             elif "lp" in a or " | " in a.split(" | ", 1)[-1]:
                 distinct.add(a.split(" | ", 1)[-1] + "#" + l.split("|")[1])
+        # ---- fault injection (C02): the K-th move of a tracked value throws; only the monitors judge
+        nf = self.faults_quick if tier == "quick" else self.faults_thorough
+        if nf:
+            flines = []
+            for l, m in list(zip(lines, moves))[:nf]:
+                for k in range(1, min(m, 10) + 1):
+                    flines.append(f"{l} | throw={k}")
+            try:
+                fout, fcr = run_lines(exe, flines, "case ")
+            except subprocess.TimeoutExpired:
+                fout, fcr = [], []
+                verdict.add(f"{self.name}: fault harness timeout", "fault-injection run timed out", dict(stream=self.name), found_input=False)
+            cov["fault_cases"] = cov.get("fault_cases", 0) + len(flines)
+            cov["fault_fired"] = cov.get("fault_fired", 0) + sum(1 for x in fout if x and "e77" in x)
+            cov["evaluations"] += len(flines)
+            for k, site, err in fcr:
+                verdict.add(f"{self.name}: fault {site}", f"with an injected throwing move the real library aborted: {flines[k]}",
+                            dict(stream=self.name, case=flines[k], sanitizer_report=err), found_input=True)
+            for l, a in zip(flines, fout):
+                if a and "!!" in a.replace("!!bad-op", ""):
+                    what = a.replace("!!bad-op", "").split("!!")[1].split(",")[0].split(" ")[0].split("=")[0]
+                    verdict.add(f"{self.name}: fault monitor {what}", f"with an injected throwing move: {a}",
+                                dict(stream=self.name, case=l, impl=a), found_input=True)
+            if flines:
+                cov["samples"].append(dict(stream=self.name + "/fault", case=flines[0], observation=fout[0] if fout else None))
         cov["distinct_nontrivial"] += len(distinct)
         cov["rejected_histories"] += mism
         cov.setdefault("node_histogram", {}).update(hist)
